@@ -6,7 +6,10 @@ pub mod c05;
 pub mod c06;
 pub mod c07;
 pub mod c08;
+pub mod c09;
+pub mod c10;
 pub mod c11;
+pub mod c17;
 pub mod c18;
 pub mod tools_sm2;
 
@@ -24,7 +27,10 @@ pub fn run(prop: &str, ctx: &mut Ctx, extra: &[String]) -> bool {
         "C06" => c06::run(ctx),
         "C07" => c07::run(ctx),
         "C08" => c08::run(ctx),
+        "C09" => c09::run(ctx),
+        "C10" => c10::run(ctx),
         "C11" => c11::run(ctx),
+        "C17" => c17::run(ctx),
         "C18" => c18::run(ctx),
         _ => return false,
     }
